@@ -1,29 +1,14 @@
-use hlverif::gen::*;
-use hlverif::props::*;
-use hlverif::engine::RunResult;
-use hlverif::case::ConcCase;
-use std::time::Instant;
+use hlverif::tyeng::*;
 fn main() {
-	let tcfg = tiny_conc_cfg();
-	let nontrivial = |_c: &ConcCase, r: &RunResult| r.waited;
-	let e = ConcEval { prop: "C01", nontrivial: &nontrivial, extra: None };
-	let mut x: u64 = 88172645463325252;
-	let mut worst: Vec<(f64, u64, String)> = Vec::new();
-	let t_all = Instant::now();
-	let mut total_runs = 0u64;
-	for i in 0..600 {
-		let len = (x % 120) as usize;
-		let mut bytes = vec![0u8; len];
-		for b in bytes.iter_mut() { x ^= x << 13; x ^= x >> 7; x ^= x << 17; *b = (x >> 24) as u8; }
-		x ^= x << 13; x ^= x >> 7; x ^= x << 17;
-		let case = gen_conc(&mut Src::new(&bytes), &tcfg);
-		let t = Instant::now();
-		let rep = exhaust_program(&e, &case, 3000, false);
-		let dt = t.elapsed().as_secs_f64();
-		total_runs += rep.extra_evals + 1;
-		if dt > 0.5 { println!("program {i}: {:.2}s runs={} labels={:?}", dt, rep.extra_evals + 1, rep.labels); worst.push((dt, rep.extra_evals, format!("{:?}", case.programs))); }
+	let tc = Toolchain::locate().unwrap_or_else(|_| {
+		// examples live one level deeper than the hlv binary
+		panic!("locate")
+	});
+	for p in families_c15(&Subj::all_with_apis()) {
+		if p.family.starts_with("D1-reference-via") {
+			let o = judge(&tc, &p);
+			if let PairOutcome::GeneratorError(e) = &o { println!("{} :: {}\n{}", p.name, e, p.twin); break; }
+		}
 	}
-	println!("sequential: {} runs in {:.1}s", total_runs, t_all.elapsed().as_secs_f64());
-	worst.sort_by(|a, b| b.0.partial_cmp(&a.0).unwrap());
-	for w in worst.iter().take(3) { println!("{:.2}s runs={} {}", w.0, w.1, &w.2[..w.2.len().min(600)]); }
+	tc.cleanup();
 }
